@@ -76,6 +76,8 @@ type Tape struct {
 	pos    int
 	Rec    []Decision
 	Diverged string
+	streams  map[string][]int
+	spos     map[string]int
 }
 
 func NewTape(seed uint64) *Tape { return &Tape{Seed: seed, r: newRng(seed)} }
@@ -94,12 +96,42 @@ func NewStrictTape(seed uint64, d []Decision) *Tape {
 	return &Tape{Seed: seed, Replay: vals, replay: true, strict: d}
 }
 
+// NewStreamTape replays per-kind streams: the k-th decision of kind K takes the k-th value
+// of streams[K] (modulo n; 0 when the stream is exhausted). Replaying the streams built
+// from a recorded run reproduces it exactly; editing one stream leaves all other kinds
+// aligned, which is what makes shrinking effective.
+func NewStreamTape(seed uint64, streams map[string][]int) *Tape {
+	return &Tape{Seed: seed, replay: true, streams: streams, spos: map[string]int{}}
+}
+
+// Streams groups recorded decisions by kind, in order.
+func Streams(d []Decision) map[string][]int {
+	m := map[string][]int{}
+	for _, x := range d {
+		m[x.Kind] = append(m[x.Kind], x.V)
+	}
+	return m
+}
+
 // Choose returns a value in [0,n).
 func (t *Tape) Choose(kind string, n int) int {
 	if n <= 0 {
 		panic("simrt: Choose with n <= 0 (" + kind + ")")
 	}
 	var v int
+	if t.streams != nil {
+		st := t.streams[kind]
+		if i := t.spos[kind]; i < len(st) {
+			v = st[i] % n
+			if v < 0 {
+				v = -v
+			}
+		}
+		t.spos[kind]++
+		t.pos++
+		t.Rec = append(t.Rec, Decision{kind, n, v})
+		return v
+	}
 	if t.replay {
 		if t.pos < len(t.Replay) {
 			v = t.Replay[t.pos] % n
